@@ -25,8 +25,8 @@ func init() {
 		ID:    "C14",
 		Level: "exploration",
 		Rule: "mixed-radix enumeration by rank of all call chains host -> frame1 -> ... -> frameN (N <= reported depth) whose frames alternate between script functions " +
-			"(5 try shapes: none, catch+rethrow, finally, catch+rethrow+finally, swallowing catch) and native Go frames (7 entry conventions x 8 exit conventions), " +
-			"x 9 host edges x every payload the innermost frame can raise (14 script, 20 native); each chain runs on a fresh runtime and is compared with the structural model. " +
+			"(5 try shapes: none, catch+rethrow, finally, catch+rethrow+finally, swallowing catch) and native Go frames (7 entry conventions x 10 exit conventions), " +
+			"x 10 host edges x every payload the innermost frame can raise (14 script, 20 native); each chain runs on a fresh runtime and is compared with the structural model. " +
 			"A chain is non-trivial when a non-normal condition (exception, Go error, uncatchable, foreign panic) crossed at least one Go/JS boundary; chains are distinct by construction (distinct ranks).",
 		Run:    run,
 		Replay: replay,
@@ -214,7 +214,7 @@ func coarseKey(c *Chain, kinds string) string {
 }
 
 // hostOfExit: the host edge that performs the same Go->script convention as a native's exit.
-var hostOfExit = [...]HostEdge{xCallable: hCallable, xNew: hConstruct, xExportFn: hExportFn, xExportFnErr: hExportFnErr, xGet: hTryGet, xForOf: hTryForOf, xJSProxy: hTryJSProxy, xTryGet: hTryGet}
+var hostOfExit = [...]HostEdge{xCallable: hCallable, xNew: hConstruct, xExportFn: hExportFn, xExportFnErr: hExportFnErr, xGet: hTryGet, xForOf: hTryForOf, xJSProxy: hTryJSProxy, xTryGet: hTryGet, xForOfStep: hTryForOfStep, xForOfStepRT: hTryForOfStep}
 
 // shrink greedily reduces a failing chain to a minimal failing one. The signature is derived from the
 // minimal chain, so that one root cause gets one signature however deep the chain was in which it showed.
@@ -268,6 +268,14 @@ func shrink(c *Chain) *Chain {
 			} else {
 				d.Frames = d.Frames[:n-1]
 			}
+			if fails(d) {
+				cur, changed = d, true
+			}
+		}
+		// the simplest payload of the same kind
+		if cur.Payload.isValue() && cur.Payload != pNum {
+			d := cur.clone()
+			d.Payload = pNum
 			if fails(d) {
 				cur, changed = d, true
 			}
